@@ -249,6 +249,35 @@ def main_for(prop, tier, seed, replay=None):
                 info[cid] = (text + '  [printer object reused after an '
                              'abandoned rendering]', ind, sent)
     rep.notes['skipped'] = skipped
+    if prop == 'C01':
+        # the programs the repository's own tests parse (DESIGN 4.5): no
+        # derivation, so only the clauses the real parser decides
+        corpus = gen.suite_corpus(rep)
+        cres = impl.pmap(_print, [(t, False) for t in corpus], chunk=50)
+        for text, r in zip(corpus, cres):
+            if r[0] != 'ok':
+                continue
+            for ind, o in zip(INDENTS, r[2]):
+                rep.count('evaluations')
+                if o[0] == 'print-exc':
+                    rep.violation('C01 printer-raised indent=%r' % ind,
+                                  'pretty_print raised %s on %r' % (o[1], text),
+                                  {'text': text, 'indent': ind})
+                elif o[0] == 'reparse-exc':
+                    rep.violation('C01 reparse rejected corpus',
+                                  'pretty output %r of %r does not parse: %s'
+                                  % (o[1], text, o[2]),
+                                  {'text': text, 'indent': ind, 'output': o[1]})
+                elif o[2] is not None:
+                    rep.violation('C01 reparse tree-differs at=%s'
+                                  % o[2][0].split('/')[-1],
+                                  'pretty output %r of %r reads as a different '
+                                  'tree: %r' % (o[1], text, o[2]),
+                                  {'text': text, 'indent': ind, 'output': o[1]})
+                elif not o[3]:
+                    rep.violation('C01 fixpoint', 'printing the re-parsed tree '
+                                  'of %r does not reproduce %r' % (text, o[1]),
+                                  {'text': text, 'indent': ind, 'output': o[1]})
     fuse = printing.fuse_verdicts(pairs, rep)
     rep.notes['distinct_adjacent_pairs'] = len(pairs)
     recs = printing.print_records(cases, fuse, lambda m: m['indent'])
